@@ -173,7 +173,7 @@ func checkC11(p *Prog, rp *Report) {
 			return []Val{&TupleV{E: []Val{Ptr{Obj: bid}, OpaqueV{"rest-of(" + src + ")"}}}}, true
 		}
 		verify := func(m *Machine, st *State, call *ssa.CallCommon, args []Val) ([]Val, bool) {
-			out.verified = append(out.verified, prov(st, args[0])+"|"+prov(st, args[1])+"|"+prov(st, args[2]))
+			out.verified = append(out.verified, keyringID(st, args[0])+"|"+prov(st, args[1])+"|"+prov(st, args[2]))
 			if !sc.verifyOK {
 				return []Val{&TupleV{E: []Val{nilV{}, IfaceV{T: errType, V: "signature made by unknown entity"}}}}, true
 			}
@@ -196,7 +196,7 @@ func checkC11(p *Prog, rp *Report) {
 		case "nil-list":
 			kr = Ptr{Obj: st.alloc(types.NewSlice(ifT), nilV{})}
 		}
-		krName := prov(st, kr)
+		krName := keyringID(st, kr)
 		st.push(entry, []Val{IfaceV{T: ifT, V: Ptr{Obj: src}}, kr}, nil)
 		res := m.Run(st)
 		if len(res) != 1 {
@@ -224,7 +224,7 @@ func checkC11(p *Prog, rp *Report) {
 					return find(lv, depth+1)
 				case *StructV:
 					if len(x.F) == structOf(prT).NumFields() {
-						if _, isP := x.F[fieldIndex(structOf(prT), "reader")].(Ptr); isP {
+						if _, isP := x.F[fieldIndex(structOf(prT), roleField(prT, "*bufio.Reader", "reader"))].(Ptr); isP {
 							return x
 						}
 					}
@@ -240,8 +240,8 @@ func checkC11(p *Prog, rp *Report) {
 			if pr == nil {
 				return nil, "no ParagraphReader in the result"
 			}
-			out.installed = prov(st, pr.F[fieldIndex(structOf(prT), "reader")])
-			if s := prov(st, pr.F[fieldIndex(structOf(prT), "signer")]); s != "nil" {
+			out.installed = prov(st, pr.F[fieldIndex(structOf(prT), roleField(prT, "*bufio.Reader", "reader"))])
+			if s := prov(st, pr.F[fieldIndex(structOf(prT), roleField(prT, "*golang.org/x/crypto/openpgp.Entity", "signer"))]); s != "nil" {
 				out.signer = s
 			}
 		}
@@ -380,7 +380,7 @@ func checkC11(p *Prog, rp *Report) {
 		m := NewMachine(p, nil)
 		st := initState(m, "control")
 		sid := st.alloc(types.Typ[types.Int], OpaqueV{"the-signer"})
-		prv := mkStruct(prT, map[string]Val{"signer": Ptr{Obj: sid}})
+		prv := mkStruct(prT, map[string]Val{roleField(prT, "*golang.org/x/crypto/openpgp.Entity", "signer"): Ptr{Obj: sid}})
 		var recv Val
 		if acc.typ == "ParagraphReader" {
 			recv = Ptr{Obj: st.alloc(prT, prv)}
@@ -421,4 +421,36 @@ func filter(xs []string, sub string) []string {
 		}
 	}
 	return out
+}
+
+// keyringID names a key list by its storage, whether it is handed around as *EntityList or as EntityList:
+// a pointer to a list and the list it points to are the same keyring.
+func keyringID(st *State, v Val) string {
+	for depth := 0; depth < 4; depth++ {
+		switch x := v.(type) {
+		case IfaceV:
+			v = x.V
+			continue
+		case Ptr:
+			lv, ok := st.load(x)
+			if !ok {
+				return fmt.Sprintf("obj%d", x.Obj)
+			}
+			switch lv.(type) {
+			case SliceV, nilV:
+				v = lv
+				continue
+			}
+			return fmt.Sprintf("obj%d", x.Obj)
+		case SliceV:
+			if x.Abs {
+				return "list(?)"
+			}
+			return fmt.Sprintf("list(obj%d:%d)", x.Obj, x.Len_)
+		case nilV:
+			return "list(nil)"
+		}
+		break
+	}
+	return fmt.Sprintf("%T", v)
 }
